@@ -51,9 +51,10 @@ def render(prefix, vocab, s):
 
 
 def _work(task):
-    prefix, vocab, strings, visitor, fresh = task
+    prefix, vocab, strings, visitor, last = task
     nv = len(vocab)
     viable_children = []
+    n_viable = 0
     stats = {}
     fails = []
     extra = []
@@ -64,13 +65,15 @@ def _work(task):
             out, viable = probe_parse(text, FILENAME)
             child = s + (t,)
             if viable:
-                viable_children.append(child)
+                n_viable += 1
+                if not last:  # children of the last level are only counted
+                    viable_children.append(child)
             k = out[0] if out[0] != "exc" else out[1]
             stats[k] = stats.get(k, 0) + 1
             if visitor is not None:
                 visitor(child, tuple(vocab[i] for i in child), text, out, viable,
                         stats, fails, extra)
-    return viable_children, stats, fails, extra
+    return viable_children, stats, fails, extra, n_viable
 
 
 def explore(prefix, vocab, N, visitor=None, fresh=False, chunk=None):
@@ -92,20 +95,22 @@ def explore(prefix, vocab, N, visitor=None, fresh=False, chunk=None):
             continue
         csz = chunk or max(1, min(2000, len(frontier) // (core.NPROC * 6) + 1))
         tasks = [
-            (prefix, vocab, frontier[i : i + csz], visitor, fresh)
+            (prefix, vocab, frontier[i : i + csz], visitor, n == N)
             for i in range(0, len(frontier), csz)
         ]
         res = core.pmap(_work, tasks, chunksize=1)
         nxt = []
+        nv_level = 0
         ex = len(frontier) * len(vocab)
-        for vc, st, fl, xt in res:
+        for vc, st, fl, xt, nvi in res:
+            nv_level += nvi
             nxt.extend(vc)
             for k, v in st.items():
                 stats[k] = stats.get(k, 0) + v
             fails.extend(fl)
             extra.extend(xt)
         executions += ex
-        levels.append((len(nxt), ex))
+        levels.append((nv_level, ex))
         frontier = nxt
     decided = sum(len(vocab) ** n for n in range(0, N + 1))
     return dict(levels=levels, stats=stats, fails=fails, extra=extra,
